@@ -96,7 +96,7 @@ func judge(t *Tree, set []Atom, routes []*Route, tags []string, rec *callRec, er
 	// component options, per node
 	delivered := 0
 	for _, n := range t.All {
-		if n.isGraph() || n.Kind == "Z" {
+		if n.isGraph() || isPass(n.Kind) {
 			continue
 		}
 		ex := rec.execs[n.Idx]
